@@ -19,6 +19,7 @@ import (
 	"encoding/json"
 	"fmt"
 	"os"
+	"path"
 	"path/filepath"
 	"sort"
 	"strconv"
@@ -104,7 +105,7 @@ func validReason(c *project.Config) string {
 		}
 	}
 	for _, req := range c.Requirements {
-		if project.CleanPath(req.Path) != req.Path {
+		if refCleanPath(req.Path) != req.Path {
 			return "skipped-not-clean"
 		}
 	}
@@ -682,7 +683,7 @@ func main() {
 	}
 
 	// (3) path forms x requirement versions (invalid ones are skipped and counted)
-	pathPool := []string{"example.com/x", "example.com/x@v2", "a/b@v3", "a/b@v1", "a/b@v0", "x@v1", "x@v0", "x@v2", "x@v10",
+	pathPool := []string{"example.com/x", "example.com/x@v2", "a/b@v3", "a/b@v1", "a/b@v0", "x@v1", "x@v0", "x@v2", "x@v10", "x@v9", "x@v12", "x@v19", "x@v20", "x@v100", "reqs/dep@v12",
 		"a//b", "a/./b", "a/", "/", "/a", ".", "..", "../a", "a/../b", "a/..", "a@v2/b", "a@v2/b@v3", "a@", "@v2", "a@v2@v3", "a@v1@v2", "a@v2@v1",
 		"a@é", "a@ ", "a @v2", "a@v2 ", "a.b/c-d_e", "", "a", "A/B", "a/b/c/d/e@v99", "a@v2/", "a/@v2", "é/😀@v2", "a b/c d@v2", "a\\b", "a\\b@v2"}
 	versionPool := []string{"v1.0.0", "v0.1.2", "v2.3.4-pre", "v0.0.0", "v1.2.3-rc.1", "v10.20.30", "v1.2.3-0.a-b", "v1.2.3+meta", "v1", "v1.2", "1.0.0", "", "v01.0.0", "v1.0.0-", "latest"}
@@ -929,7 +930,7 @@ func main() {
 	r.Extra["outcome_classes"] = r.Outcomes("outcome")
 	r.Extra["alphabet"] = alphabet
 	r.Assumptions = []string{
-		"valid configuration = every requirement version v has semver.IsValid(v) && semver.Canonical(v)==v and every requirement path p has project.CleanPath(p)==p; others are generated, counted as skipped and not judged",
+		"valid configuration = every requirement version v has semver.IsValid(v) && semver.Canonical(v)==v and every requirement path p is in clean form by an independent definition (path.Clean of the part before a trailing @major, the @major kept unless it is empty, v0 or v1); others are generated, counted as skipped and not judged",
 		"all strings are valid UTF-8 (TOML cannot carry other strings); control characters, quotes and arbitrary Unicode in every string and key are in scope",
 		"nil and empty slices/maps are identified when comparing configurations",
 		"files are written to a tmpfs scratch directory; I/O errors there are harness errors, not verdicts",
@@ -969,4 +970,23 @@ func doReplay(r *vlib.Run) {
 		os.Exit(1)
 	}
 	os.Exit(0)
+}
+
+// refCleanPath is an independent statement of "clean form" (the precondition of the
+// property must not be decided by the code under test): the part before a trailing "@major"
+// (an '@' after the last '/') is cleaned lexically; the major is kept unless it is empty, v0
+// or v1 - majors are compared as strings for equality only, never ordered.
+func refCleanPath(p string) string {
+	base, major := p, ""
+	for i := len(p) - 1; i >= 0 && p[i] != '/'; i-- {
+		if p[i] == '@' {
+			base, major = p[:i], p[i+1:]
+			break
+		}
+	}
+	base = path.Clean(base)
+	if major == "" || major == "v0" || major == "v1" {
+		return base
+	}
+	return base + "@" + major
 }
